@@ -104,13 +104,27 @@ def dedup (l : List Nat) : List Nat := l.foldl (fun acc x => if acc.contains x t
 def fsmSyms (F : Fsm) : List Sym :=
   dedup (F.map.flatMap fun e => e.2.filterMap (·.1))
 
-/-- first string up to the bound on which the fsm and the expression disagree -/
+def insertSorted (x : Nat) : List Nat → List Nat
+  | [] => [x]
+  | y :: ys => if x ≤ y then x :: y :: ys else y :: insertSorted x ys
+
+def lexLt : List Nat → List Nat → Bool
+  | [], [] => false
+  | [], _ :: _ => true
+  | _ :: _, [] => false
+  | a :: as, b :: bs => a < b || (a == b && lexLt as bs)
+
+/-- the shortest, then lexicographically least, string up to the bound on which the fsm and the
+expression disagree (over the named symbols plus one unnamed symbol) -/
 def langDiff (F : Fsm) (r : Rx) (bound : Nat) : Option (List Sym) :=
-  let named := dedup (fsmSyms F ++ r.syms)
+  let named := (dedup (fsmSyms F ++ r.syms)).foldr insertSorted []
   let fresh := named.foldl (fun a b => max a b) 0 + 1
   let sig := named ++ [fresh]
   (List.range (bound + 1)).firstM fun k =>
-    (stringsOfLen sig k).find? fun w => F.accepts w != r.rmatch w
+    let ds := (stringsOfLen sig k).filter fun w => F.accepts w != r.rmatch w
+    match ds with
+    | [] => none
+    | d :: rest => some (rest.foldl (fun m w => if lexLt w m then w else m) d)
 
 def showOutcome : Outcome → String
   | .ok => "ok" | .nonTerminal => "nonterminal" | .refused => "refused"
